@@ -567,5 +567,9 @@ func TestC12GenCorpus(t *testing.T) {
 			write(b)
 		}
 	}
+	svc := rapid.Custom(func(rt *rapid.T) []byte { return svcParamMessage(rt) })
+	for i := 0; i < 12; i++ {
+		write(svc.Example(i))
+	}
 	t.Logf("wrote %d seeds", n)
 }
